@@ -91,7 +91,9 @@ FUZZ = lambda q, t: stream("codec.fuzz", {"quick": q, "thorough": t, "search": q
     "quoted) in a decimal or float member, array element, map value or query parameter. Inputs <= 4 KiB (thorough 64 KiB). Go oracle: "
     "no panic, time bound, decoded message size <= 1024 * input + 8 KiB (c06-amplification), and for accepted documents the "
     "C03 exactness oracle. Non-trivial = accepted input; distinct by root + input.",
-    flush=True, crash_signature="c06-crash", timeout_s=1500)
+    flush=True, crash_signature="c06-crash", timeout_s=1500,
+    # a thorough shard (64 KiB inputs) peaks near 4 GiB: 16 at once leave < 2 GiB of the 62 GiB machine
+    max_parallel={"quick": 16, "thorough": 8, "search": 16})
 
 STRESS = lambda q, t: stream("codec.stress", {"quick": q, "thorough": t, "search": q}, {"quick": 4, "thorough": 8, "search": 4},
     "Go only: recursive target types, nesting depth 10^3..2*10^4 (thorough 10^5) through object, array and oneof recursion, closed and "
